@@ -119,8 +119,8 @@ def run_round(case):
             continue
         for p in r['problems']:
             problems.append('client %d (limit %d, ts %d): %s' % (i, case['plans'][i]['max_pdu'], case['plans'][i]['ts'], p))
-        if r['msg_ids'] != list(range(1, len(r['msg_ids']) + 1)):
-            problems.append('client %d: message ids %r are not 1, 2, 3, ... within its thread' % (i, r['msg_ids'][:8]))
+        if len(set(r['msg_ids'])) != len(r['msg_ids']):
+            problems.append('client %d: message ids %r repeat within its thread' % (i, r['msg_ids'][:8]))
         want_limit = min(x for x in (case['plans'][i]['max_pdu'] or 10 ** 12, case['srv_max'] or 10 ** 12))
         if r.get('limit') is not None and (r['limit'] or 10 ** 12) != want_limit:
             problems.append('client %d negotiated limit %r, expected %r' % (i, r.get('limit'), want_limit))
@@ -135,7 +135,45 @@ def run_round(case):
     return problems
 
 
+def ids_soak(threads, draws):
+    """`threads` threads draw `draws` ids each from the convenience counter, interleaved.  Returns
+    (duplicates found, per-thread sequences that are not the model's 1, 2, 3, ...)"""
+    import pynetdicom2
+    got = {}
+    bar = threading.Barrier(threads)
+
+    def work(i):
+        bar.wait()
+        out = []
+        for k in range(draws):
+            out.append(pynetdicom2._new_msg_id())
+            if k % 4096 == 0:
+                time.sleep(0)
+        got[i] = out
+    ts = [threading.Thread(target=work, args=(i,)) for i in range(threads)]
+    for t in ts:
+        t.start()
+    for t in ts:
+        t.join(120)
+    dups, off = [], []
+    for i in range(threads):
+        seq = got.get(i) or []
+        seen = {}
+        for k, v in enumerate(seq):
+            if v in seen:
+                dups.append('thread %d: id %r handed out at draws %d and %d' % (i, v, seen[v] + 1, k + 1))
+                break
+            seen[v] = k
+        if seq != list(range(1, draws + 1)):
+            k = next((k for k, v in enumerate(seq) if v != k + 1), len(seq))
+            off.append('thread %d: draw %d returned %r (model: %d)' % (i, k + 1, seq[k] if k < len(seq) else None, k + 1))
+    return dups, off
+
+
 def replay(case):
+    if case.get('ids_soak'):
+        dups, _ = ids_soak(case['threads'], case['draws'])
+        return '; '.join(dups[:3]) or None
     p = run_round(case)
     return '; '.join(p[:4]) or None
 
@@ -157,9 +195,19 @@ def run(chk):
                 'quick; up to 48 thorough), each with its own transfer syntax, maximum length, operation mix (C-ECHO, C-FIND with '
                 'client-tagged matches, C-STORE of client-specific data), some leaving through an error (abort) mid-way; every '
                 'client checks its own answers (ids, data, the transfer syntax the server used for it, negotiated limit), message '
-                'ids from the convenience counter must be 1,2,3.. per thread, every acknowledged store must have reached the '
+                'ids from the convenience counter must not repeat within a thread (checked in the rounds and in a soak of 8 x 70 000 / 32 x 300 000 draws, which is also compared with the model sequence 1, 2, 3, ...), every acknowledged store must have reached the '
                 'handler intact; repeated over seeds; non-trivial = rounds with at least 4 concurrent clients')
     chk.trusted += ['OS thread scheduling: the interleavings are whatever this run produced (sampled, not enumerated)']
+    # the convenience counter alone, far beyond what a round draws (16-bit boundary included)
+    th, dr = (8, 70000) if tier == 'quick' else (32, 300000)
+    dups, off = ids_soak(th, dr)
+    soak = {'ids_soak': True, 'threads': th, 'draws': dr}
+    chk.case('ids-soak', True, {'ids_soak': '%d threads x %d draws' % (th, dr)})
+    chk.count('ids:draws', th * dr)
+    if dups:
+        chk.violation('C20:ids:repeat', 'message ids repeat within a thread: ' + '; '.join(dups[:3]), soak)
+    elif off:
+        chk.broke('correspondence: _new_msg_id vs Dicom.C20.newMsgId', '; '.join(off[:3]), soak)
     rounds = [(4, 3), (16, 2), (32, 1)] if tier == 'quick' else [(4, 10), (16, 10), (32, 5), (48, 3)]
     seed = 0
     for n, reps in rounds:
